@@ -70,22 +70,23 @@ func scopeSpaces(tier string) []scopeSpaceDef {
 	one := otherVariants[:1]
 	if tier == "thorough" {
 		return []scopeSpaceDef{
+			{name: "sibling-blocks-on-one-line", others: one, fixed: siblingBlockPrograms()},
 			{"forms-1node", forms, 1, 1, otherVariants, 1, false, nil},
 			{"forms-2nodes", forms, 2, 2, one, 1, false, nil},
 			{"structure<=3", structure, 1, 3, one, 1, false, nil},
 			{"structure<=2-all-second-files", structure, 1, 2, otherVariants, 1, false, nil},
 			{"structure<=3-on-one-line", structure, 1, 3, one, 1, true, nil},
 			{"core-4nodes-depth3", coreA, 4, 4, one, 1, false, nil},
-			{name: "sibling-blocks-on-one-line", others: one, fixed: siblingBlockPrograms()},
 		}
 	}
 	return []scopeSpaceDef{
+		// the small hand-written space runs first: it must never fall victim to an expiring budget
+		{name: "sibling-blocks-on-one-line", others: one, fixed: siblingBlockPrograms()},
 		{"forms-1node", forms, 1, 1, otherVariants, 1, false, nil},
 		{"structure<=2-all-second-files", structure, 1, 2, otherVariants, 1, false, nil},
 		{"structure<=2-on-one-line", structure, 1, 2, one, 1, true, nil},
 		{"structure-3nodes", structure, 3, 3, one, 1, false, nil},
 		{"structure-3nodes-on-one-line-first-40000", structure, 3, 3, one, 40000, true, nil},
-		{name: "sibling-blocks-on-one-line", others: one, fixed: siblingBlockPrograms()},
 	}
 }
 
